@@ -135,6 +135,7 @@ pub struct PathState {
     pub rounding: bool,
     pub rounded_ops: usize,
     pub alt_budget: usize,
+    pub path_t0: std::time::Instant,
     pub fresh_counter: u32,
 }
 
@@ -444,6 +445,10 @@ pub fn decide(c: u32) -> bool {
         // a loop whose conditions repeat identically is answered from the memo without new decisions: bound it
         // (this happens on branches whose feasibility the solver could not decide)
         st.memo_hits += 1;
+        if st.path_t0.elapsed().as_secs_f64() > 3.0 * st.cfg.wall_budget_s {
+            // a single path may not outlive the harness's wall budget (every decision can cost a solver timeout)
+            std::panic::panic_any(CutPath(format!("path exceeded three times the harness wall budget of {} s", st.cfg.wall_budget_s)));
+        }
         if st.memo_hits > 200_000 || st.arena.nodes.len() > 4_000_000 {
             std::panic::panic_any(CutPath("loop without new decisions (memoised conditions) or term arena too large".into()));
         }
@@ -814,6 +819,7 @@ pub fn run_path(cfg: &Cfg, tape: Vec<bool>, body: &(dyn Fn() + Sync), want_pc_mo
         rounding: false,
         rounded_ops: 0,
         alt_budget: 2,
+        path_t0: std::time::Instant::now(),
         fresh_counter: 0,
     };
     ST.with(|s| *s.borrow_mut() = Some(st));
